@@ -447,7 +447,7 @@ func (s *Store[H]) Append(ctx context.Context, headers ...H) error {
 func (s *Store[H]) flushLoop(ctx context.Context) {
 	defer close(s.writesDn)
 
-	flush := func(headers []H) {
+	flush := func(headers []H, force bool) {
 		s.ensureInit(headers)
 		// add headers to the pending and ensure they are accessible
 		s.pending.Append(headers...)
@@ -459,8 +459,8 @@ func (s *Store[H]) flushLoop(ctx context.Context) {
 		s.advanceHead(ctx)
 		s.recedeTail(ctx)
 		// don't flush and continue if pending batch is not grown enough,
-		// and Store is not stopping(headers == nil)
-		if s.pending.Len() < s.Params.WriteBatchSize && headers != nil {
+		// and Store is neither stopping(headers == nil) nor syncing(force)
+		if s.pending.Len() < s.Params.WriteBatchSize && headers != nil && !force {
 			return
 		}
 
@@ -493,7 +493,7 @@ func (s *Store[H]) flushLoop(ctx context.Context) {
 			for {
 				select {
 				case headers := <-s.writes:
-					flush(headers)
+					flush(headers, false)
 					if headers == nil {
 						// a signal to stop
 						return
@@ -502,11 +502,16 @@ func (s *Store[H]) flushLoop(ctx context.Context) {
 				default:
 				}
 
+				// write out whatever is still pending, so that Sync
+				// returns only once everything appended before it is in the datastore
+				if s.pending.Len() > 0 {
+					flush([]H{}, true)
+				}
 				close(dn)
 				break
 			}
 		case headers := <-s.writes:
-			flush(headers)
+			flush(headers, false)
 			if headers == nil {
 				// a signal to stop
 				return
